@@ -129,6 +129,9 @@ type analysis struct {
 	Skipped []string
 	// Generated: files with a "Code generated … DO NOT EDIT." header (not skeletonised)
 	Generated []string
+	// Locks: lock discipline of session.go (only when the root package is in scope)
+	Locks    []lockFact
+	HasLocks bool
 }
 
 func recvName(fd *ast.FuncDecl) string {
@@ -153,7 +156,10 @@ func recvName(fd *ast.FuncDecl) string {
 }
 
 // analyse regenerates the skeletons of every function in scope from the source under repo.
-func analyse(repo string) (*analysis, error) {
+func analyse(repo string) (*analysis, error) { return analyseScope(repo, scope, allowText) }
+
+// analyseScope is analyse for an arbitrary set of packages / files and allow list.
+func analyseScope(repo string, scope map[string]func(file string) bool, allowText string) (*analysis, error) {
 	al, err := parseAllow(allowText)
 	if err != nil {
 		return nil, err
@@ -173,7 +179,11 @@ func analyse(repo string) (*analysis, error) {
 		rel := strings.TrimPrefix(strings.TrimPrefix(l.Path, modPath), "/")
 		seen[rel] = true
 		filter := scope[rel]
-		x := &xl{fset: fset, l: l, repo: repo, sites: &an.Sites, allow: al}
+		x := &xl{fset: fset, l: l, repo: repo, sites: &an.Sites, allow: al, ctorMaps: ctorMapFields(l)}
+		if rel == "" {
+			an.Locks = lockFactsOf(l, only("session.go"), fset)
+			an.HasLocks = true
+		}
 		pkgName := l.Pkg.Name()
 		for i, file := range l.Files {
 			if filter != nil && !filter(l.Names[i]) {
@@ -231,6 +241,7 @@ func Facts(repo string) (string, error) {
 		fmt.Fprintf(&b, "/- extraction failed: %s -/\n", strings.ReplaceAll(err.Error(), "-/", "- /"))
 		b.WriteString("def skeletons : Option (List (String × Stmt)) := none\n")
 		b.WriteString("def trustedSites : Nat := 0\n")
+		b.WriteString(leanLockFacts(nil, err))
 		b.WriteString("end XmppModel.Generated.C09\n")
 		return b.String(), nil
 	}
@@ -256,7 +267,12 @@ func Facts(repo string) (string, error) {
 		used += e.used
 	}
 	fmt.Fprintf(&b, "/-- partial operations accepted through the reviewed allow list (harness/c09/allow.txt) -/\ndef trustedSites : Nat := %d\n\n", used)
-	b.WriteString("/-! Sites:\n")
+	if an.HasLocks {
+		b.WriteString(leanLockFacts(an.Locks, nil))
+	} else {
+		b.WriteString(leanLockFacts(nil, fmt.Errorf("session.go not in scope")))
+	}
+	b.WriteString("\n/-! Sites:\n")
 	for _, s := range an.Sites {
 		if s.Kind == "loop" {
 			continue
